@@ -37,7 +37,9 @@ impl RaftIndexInnerManager {
             .await?;
         let meta = file.metadata().await?;
         //log::info!("index file len:{}",meta.len());
-        let (last_applied_log, raft_index) = if meta.len() <= 20 {
+        // fresh = the file does not yet hold the 8-byte header plus a record length;
+        // a short but complete record (e.g. only term and vote, 13 bytes) must be read back
+        let (last_applied_log, raft_index) = if meta.len() < 9 {
             //init write
             let index = RaftIndex::default();
             /*
@@ -64,11 +66,20 @@ impl RaftIndexInnerManager {
             let mut header_buf = vec![0u8; 8];
             file.read_exact(&mut header_buf).await?;
             let last_applied_log = bin_to_id(&header_buf);
-            let mut file_reader = FileMessageReader::new(file.try_clone().await?, 8);
-            let buf = file_reader.read_next().await?;
-            let mut reader = BytesReader::from_bytes(&buf);
-            let index: RaftIndex = reader.read_message(&buf)?;
-            let raft_index: RaftIndexDto = index.into();
+            let mut first = [0u8; 1];
+            file.read_exact(&mut first).await?;
+            file.seek(std::io::SeekFrom::Start(8)).await?;
+            let raft_index: RaftIndexDto = if first[0] == 0 {
+                // an all-default RaftIndex is written as a zero length byte,
+                // which FileMessageReader reports as the end of the file
+                RaftIndex::default().into()
+            } else {
+                let mut file_reader = FileMessageReader::new(file.try_clone().await?, 8);
+                let buf = file_reader.read_next().await?;
+                let mut reader = BytesReader::from_bytes(&buf);
+                let index: RaftIndex = reader.read_message(&buf)?;
+                index.into()
+            };
             (last_applied_log, raft_index)
         };
         Ok(Self {
